@@ -39,7 +39,7 @@ def cases(draw, allow_slow=False):
                                   st.booleans()), max_size=5))
     return {'cfg': cfg, 'entry': draw(st.integers(0, n - 1)), 'host_s': draw(st.integers(0, 300)),
             'host_d': draw(st.integers(0, 300)), 'first': draw(st.sampled_from(['a', 'b'])),
-            'cookie': draw(st.integers(0, 4)) == 0, 'ops': [list(o) for o in ops]}
+            'cookie': draw(st.integers(0, 4)) == 0, 'both': draw(st.integers(0, 3)) == 0, 'ops': [list(o) for o in ops]}
 
 
 def established(ep):
@@ -60,6 +60,11 @@ def run_case(case, collect=None):
     first = case.get('first', 'a')
     w.acquire(eps[first], **gen.acquire_args(cfg, case['entry'], side=first, host_s=case['host_s'],
                                             host_d=case['host_d']))
+    if case.get('both'):
+        # simultaneous initiation: the other end starts its own IKE_SA before anything is delivered (two IKE_SAs, same peer)
+        other = 'b' if first == 'a' else 'a'
+        w.acquire(eps[other], **gen.acquire_args(cfg, case['entry'], side=other, host_s=case['host_s'] + 5,
+                                                host_d=case['host_d'] + 5))
     w.run_until_quiet()
     done_ops = []
     ops = [list(o) + [False] * (4 - len(o)) for o in case['ops']]
@@ -68,7 +73,7 @@ def run_case(case, collect=None):
         est = established(ep)
         if not est:
             break
-        sa = est[0]
+        sa = est[(k // 3) % len(est)]
         before = len(w.sent_log)
         if kind == 'new_child':
             idx = k % len(cfg['protect'])
@@ -84,7 +89,7 @@ def run_case(case, collect=None):
         if len(w.sent_log) > before:
             done_ops.append(kind)
         nxt = ops[i + 1] if i + 1 < len(ops) else None
-        if (cross and nxt is not None and nxt[1] != side and kind in ('new_child', 'rekey_child')
+        if (cross and nxt is not None and (nxt[1] != side or case.get('both')) and kind in ('new_child', 'rekey_child')
                 and nxt[0] in ('new_child', 'rekey_child')):
             done_ops.append('x')
             continue
@@ -231,6 +236,8 @@ def body(case, stats):
         kl.append('ike_rekey_completed')
     if info['children'] == 0:
         kl.append('no-child-established')
+    if case.get('both'):
+        kl.append('simultaneous-initiation')
     stats.case(fingerprint(case, info), nontrivial=info['children'] >= 2 or info.get('ike_rekeys', 0) > 0, klass=kl,
                sample={'ike': cfg['ike'], 'auth': [cfg['auth_a'], cfg['auth_b']], 'ops': case['ops'],
                        'children_negotiated': info['children'], 'protect0': {k: cfg['protect'][0][k] for k in
